@@ -10,6 +10,7 @@ import DimModel.Lib.OnDisk
 import DimModel.Proofs.C20
 import DimModel.Proofs.C20Multi
 import DimModel.Proofs.C20Store
+import DimModel.Proofs.C20StoreIx
 namespace DimModel
 open Lib OnDisk
 
@@ -499,6 +500,62 @@ same Dataset - keys in order, axes in the Dataset's order, metadata, and every v
 theorem readFile_storeDs {α} (d : α) (ds : Ds α) (hw : WfDs ds) :
     ∃ r, readFile d (storeDs ds) none none = .ok r ∧ r.keys = ds.keys ∧ r.dims = ds.dims ∧ SameDs r ds :=
   ⟨reloadDs d ds, readFile_storeDs_eq d ds hw, reloadDs_keys d ds, rfl, reloadDs_same d ds hw⟩
+
+/-- WRITE, THEN READ WITH `indices=` (partial, wave 5): whatever position indices `indices={dim: ix}` resolves to on the
+file's dimensions (`fileIndices`: any index form, label or position mode, scalars included - a scalar drops the dimension
+from the Dataset and from every variable), reading the file written from a well-formed Dataset SUCCEEDS (`__setitem__`
+never refuses a variable: the sub-selected axes stay shared), keeps the keys in order and the metadata, the Dataset's
+axes are the file's dimensions re-read at their positions in the file's order (scalar-indexed ones dropped), and every
+variable is the orthogonal get of its store at the positions of its own dimensions (`readVarAt`).  Not yet identified
+here: `readVarAt d ds.axes pix (store a)` with `Lib.take a {dim: ix}` (via `ondisk_read_eq_take`). -/
+theorem readFile_storeDs_indexed_partial {α} (d : α) (ds : Ds α) (hw : WfDs ds) (idx : Option FileIndex) (pix : List PosIx)
+    (hpix : fileIndices ds.axes idx = .ok pix) :
+    readFile d (storeDs ds) none idx = .ok
+      { axes := axesOrtho ds.axes pix,
+        vars := ds.vars.map fun kv => (kv.1, readVarAt d ds.axes pix (store kv.2)),
+        attrs := ds.attrs } := by
+  have hndF : ((storeDs ds).vars.map (·.1)).Nodup := by
+    have : (storeDs ds).vars.map (·.1) = ds.keys := by simp [storeDs, Ds.keys, List.map_map, Function.comp_def]
+    rw [this]; exact hw.keys
+  have hl := fileIndices_length ds.axes idx pix hpix
+  have hfold := readFold (storeDs ds).vars (readVarAt d ds.axes pix) (axesOrtho ds.axes pix)
+    (axesOrtho_nodup ds.axes pix hw.dims)
+    (by
+      intro kv hkv ax hax
+      obtain ⟨kv0, hkv0, rfl⟩ := List.mem_map.1 hkv
+      exact readVarAt_axes_sub d ds.axes pix hl hw.dims (store kv0.2) (hw.shared kv0 hkv0) ax hax)
+    (storeDs ds).vars { axes := axesOrtho ds.axes pix } (fun kv hkv => ⟨hkv, find?_fst hndF hkv⟩) rfl hndF
+    (by intro kv _ h; simp [Ds.keys] at h)
+  have h1 : readFile d (storeDs ds) none idx = (do
+      let pix ← fileIndices ds.axes idx
+      let data ← ((storeDs ds).vars.map (·.1)).foldlM (readStep (storeDs ds).vars (readVarAt d ds.axes pix))
+        ({ axes := axesOrtho ds.axes pix } : Ds α)
+      pure { data with attrs := ds.attrs,
+                       axes := ds.dims.filterMap fun dim => data.axes.find? (·.name == dim) }) := rfl
+  rw [h1, hpix]
+  simp only [bind, Except.bind]
+  rw [hfold]
+  simp only [pure, Except.pure, List.nil_append, storeDs, List.map_map]
+  congr 2
+  exact filterMap_find_ortho ds.axes pix hw.dims
+
+/-- ... and when the index is refused, the read fails with the error class of the index resolution -/
+theorem readFile_storeDs_indexed_error {α} (d : α) (ds : Ds α) (idx : Option FileIndex) (e : Err)
+    (hpix : fileIndices ds.axes idx = .error e) : readFile d (storeDs ds) none idx = .error e := by
+  have h1 : readFile d (storeDs ds) none idx = (do
+      let pix ← fileIndices ds.axes idx
+      let data ← ((storeDs ds).vars.map (·.1)).foldlM (readStep (storeDs ds).vars (readVarAt d ds.axes pix))
+        ({ axes := axesOrtho ds.axes pix } : Ds α)
+      pure { data with attrs := ds.attrs,
+                       axes := ds.dims.filterMap fun dim => data.axes.find? (·.name == dim) }) := rfl
+  rw [h1, hpix]
+  rfl
+
+/-- the hypothesis of `readFile_storeDs_indexed_partial` is satisfiable by a non-trivial index: a SCALAR position on `t`
+of the two-variable Dataset `exFileC` (the dimension is dropped), and the theorem's right-hand side is then what the
+read evaluates to -/
+example : ((fileIndices exFileC.axes (some { dim := "t", ix := .scalar (.num 1), cfg := { indexing := some .position } })).toOption.map
+    fun pix => ((axesOrtho exFileC.axes pix).map (·.name), pix.length)) = some (["u"], 2) := by decide
 
 theorem mapM_readFile_storeDs {α} (d : α) : ∀ (dss : List (Ds α)), (∀ ds ∈ dss, WfDs ds) →
     (dss.map storeDs).mapM (fun f => readFile d f none none) = .ok (dss.map (reloadDs d))
